@@ -254,7 +254,8 @@ func crashsimExec(r *Run) {
 	}
 	// ---------------- fault plan
 	var plan []faultSpec
-	sqlK := -1 // layer 2: index of the SQL write-path event at which the process dies
+	sqlK := -1            // layer 2: index of the SQL write-path event at which the process dies
+	sqlCommitErr := false // ... or at which (a COMMIT) the transaction fails instead
 	if layer2 {
 		if sqlCount == 0 {
 			return
@@ -273,6 +274,20 @@ func crashsimExec(r *Run) {
 				sqlK = inReorg[t.Draw(len(inReorg), "sql-reorg-event")]
 			} else {
 				sqlK = t.Draw(sqlCount, "sql-event")
+			}
+			// a quarter of these runs: not a kill but a COMMIT that fails (SQLITE_BUSY / SQLITE_FULL at the one moment
+			// the statement itself can no longer notice); the transaction is rolled back and the error returned
+			if t.Chance(1, 4, "sql-commit-error") {
+				var commits []int
+				for i, e := range sqlEvents {
+					if strings.HasSuffix(e, ":commit") {
+						commits = append(commits, i)
+					}
+				}
+				if len(commits) > 0 {
+					sqlK = commits[t.Draw(len(commits), "sql-commit-event")]
+					sqlCommitErr = true
+				}
 			}
 			if r.Opt["enumerate"] == "1" {
 				for i := 0; i < sqlCount; i++ {
@@ -342,6 +357,9 @@ func crashsimExec(r *Run) {
 			break
 		}
 	}
+	if sqlCommitErr {
+		careful = true // (with "log and go on" a failed insert is the recorded finding)
+	}
 	r.Cfg["careful_delivery"] = careful
 	// ---------------- phase 2: faulted run
 	w := NewWorldKeepIgnore(r)
@@ -364,6 +382,17 @@ func crashsimExec(r *Run) {
 			tr.fire(s)
 			panic(crashPanic{s})
 		}
+	}
+	if sqlCommitErr {
+		sqlFail = func(op, q string) error {
+			if op != "commit" || !layer2 || tr.disabled || tr.perAdd == nil || sqlSeen != sqlK {
+				return nil
+			}
+			sqlK = -1
+			tr.fire("sqlerror-commit@" + tr.curSite)
+			return errors.New("simnet: database is locked (SQLITE_BUSY) at COMMIT")
+		}
+		defer func() { sqlFail = nil }()
 	}
 	openW(w)
 	acked := map[string]RawHeader{}
